@@ -169,3 +169,100 @@ def random_body(rng, n, depth, labels, with_if_blocks=True, with_loops=False, wi
         else:
             out.append(bump(1))
     return out
+
+
+# ---------------------------------------------------------------------------
+# C06: statement trees with every branch form, well-formed or not
+
+
+def c06_stmts(size, depth, cache):
+    """All statements with exactly `size` nodes (a goto/naked branch counts as one node)."""
+    key = ("s", size, depth)
+    if key in cache:
+        return cache[key]
+    out = []
+    if size == 1:
+        out += [bump(1), ("loop",), ("goto", "l"), ("label", "m")]
+        if depth > 0:
+            out.append(("block", []))
+    if depth > 0 and size >= 2:
+        for b in c06_seqs(size - 1, depth - 1, cache):
+            out.append(("block", b))
+        # if: 1 node for the `if` itself + then + else
+        for ts in range(1, size):
+            for then in c06_branches(ts, depth - 1, cache, is_else=False):
+                es = size - 1 - ts
+                if es == 0:
+                    out.append(("if", cond_true(), then, None))
+                else:
+                    if then[0] == "if":
+                        continue    # dangling else: the text would parse as a different tree
+                    for els in c06_branches(es, depth - 1, cache, is_else=True):
+                        out.append(("if", cond_true(), then, els))
+    cache[key] = out
+    return out
+
+
+def c06_branches(size, depth, cache, is_else):
+    out = []
+    if size == 1:
+        out += [("goto", "l"), bump(1), ("loop",)]          # goto (legal), naked assignment, naked loop
+        out.append(("block", []))
+    if size >= 2:
+        for b in c06_seqs(size - 1, depth, cache):
+            out.append(("block", b))
+        for st in c06_stmts(size, depth, cache):
+            if st[0] == "if":
+                out.append(st)      # else-if (legal in else position, naked in then position)
+    return out
+
+
+def c06_seqs(k, depth, cache):
+    key = ("q", k, depth)
+    if key in cache:
+        return cache[key]
+    if k == 0:
+        cache[key] = [[]]
+        return cache[key]
+    out = []
+    for s in range(1, k + 1):
+        firsts = c06_stmts(s, depth, cache)
+        if not firsts:
+            continue
+        for f in firsts:
+            for r in c06_seqs(k - s, depth, cache):
+                out.append([f] + r)
+    cache[key] = out
+    return out
+
+
+def unique_labels(body):
+    """Rename every `m:` label to its own name so that labels never clash (C04 is not under test here)."""
+    counter = [0]
+
+    def fix(stmts):
+        out = []
+        for st in stmts:
+            if st[0] == "label" and st[1] == "m":
+                counter[0] += 1
+                out.append(("label", "m%d" % counter[0]))
+            elif st[0] == "block":
+                out.append(("block", fix(st[1])))
+            elif st[0] == "if":
+                out.append(fix_if(st))
+            else:
+                out.append(st)
+        return out
+
+    def fix_if(st):
+        def br(b):
+            if b is None:
+                return None
+            if b[0] == "block":
+                return ("block", fix(b[1]))
+            if b[0] == "if":
+                return fix_if(b)
+            return b
+        return ("if", st[1], br(st[2]), br(st[3]))
+
+    return fix(body)
